@@ -66,37 +66,43 @@ Ltac sym_cong :=
   | solve [ apply f_equal; sym_cong ]
   | ring ].
 
-Ltac sym_eq O T :=
+(* `ring` treats `div O a b` as an atom; when that is not enough, division is unfolded to `mul _ (inv _)` first *)
+Ltac sym_ring Fth :=
+  first [ ring | (progress (sym_nodiv Fth)); ring ].
+
+Ltac sym_eq Fth O T :=
   first
   [ reflexivity
   | solve [ sym_cong ]
-  | ring
-  | progress (sym_atoms1 (inv O) ltac:(sym_eq O T); sym_atoms1 (sqrt T) ltac:(sym_eq O T);
-              sym_atoms1 (sin T) ltac:(sym_eq O T); sym_atoms1 (cos T) ltac:(sym_eq O T);
-              sym_atoms1 (tan T) ltac:(sym_eq O T);
-              sym_atoms1 (asin T) ltac:(sym_eq O T); sym_atoms1 (acos T) ltac:(sym_eq O T);
-              sym_atoms1 (atan T) ltac:(sym_eq O T);
-              sym_atoms2 (atan2 T) ltac:(sym_eq O T); sym_atoms2 (rem O) ltac:(sym_eq O T));
+  | sym_ring Fth
+  | progress (sym_nodiv Fth;
+              sym_atoms1 (inv O) ltac:(sym_eq Fth O T); sym_atoms1 (sqrt T) ltac:(sym_eq Fth O T);
+              sym_atoms1 (sin T) ltac:(sym_eq Fth O T); sym_atoms1 (cos T) ltac:(sym_eq Fth O T);
+              sym_atoms1 (tan T) ltac:(sym_eq Fth O T);
+              sym_atoms1 (asin T) ltac:(sym_eq Fth O T); sym_atoms1 (acos T) ltac:(sym_eq Fth O T);
+              sym_atoms1 (atan T) ltac:(sym_eq Fth O T);
+              sym_atoms2 (atan2 T) ltac:(sym_eq Fth O T); sym_atoms2 (rem O) ltac:(sym_eq Fth O T));
     first [ reflexivity | ring ] ].
 
+
 (* a boolean test of the model against the path conditions *)
-Ltac sym_cond O T A :=
+Ltac sym_cond Fth O T A :=
   match goal with
   | H : ?c = ?v |- context [?c] => rewrite H
   | H : eqb O ?a ?b = ?v |- context [eqb O ?a' ?b'] =>
-      replace (eqb O a' b') with v by (rewrite <- H; f_equal; sym_eq O T)
+      replace (eqb O a' b') with v by (rewrite <- H; f_equal; sym_eq Fth O T)
   | H : ltb O ?a ?b = ?v |- context [ltb O ?a' ?b'] =>
-      replace (ltb O a' b') with v by (rewrite <- H; f_equal; sym_eq O T)
+      replace (ltb O a' b') with v by (rewrite <- H; f_equal; sym_eq Fth O T)
   | H : leb O ?a ?b = ?v |- context [leb O ?a' ?b'] =>
-      replace (leb O a' b') with v by (rewrite <- H; f_equal; sym_eq O T)
+      replace (leb O a' b') with v by (rewrite <- H; f_equal; sym_eq Fth O T)
   | H : is_finite A ?a = ?v |- context [is_finite A ?a'] =>
-      replace (is_finite A a') with v by (rewrite <- H; f_equal; sym_eq O T)
+      replace (is_finite A a') with v by (rewrite <- H; f_equal; sym_eq Fth O T)
   | H : abs_diff_eq A ?a ?b ?e = ?v |- context [abs_diff_eq A ?a' ?b' ?e'] =>
-      replace (abs_diff_eq A a' b' e') with v by (rewrite <- H; f_equal; sym_eq O T)
+      replace (abs_diff_eq A a' b' e') with v by (rewrite <- H; f_equal; sym_eq Fth O T)
   | H : relative_eq A ?a ?b ?e ?r = ?v |- context [relative_eq A ?a' ?b' ?e' ?r'] =>
-      replace (relative_eq A a' b' e' r') with v by (rewrite <- H; f_equal; sym_eq O T)
+      replace (relative_eq A a' b' e' r') with v by (rewrite <- H; f_equal; sym_eq Fth O T)
   | H : ulps_eq A ?a ?b ?e ?u = ?v |- context [ulps_eq A ?a' ?b' ?e' ?u] =>
-      replace (ulps_eq A a' b' e' u) with v by (rewrite <- H; f_equal; sym_eq O T)
+      replace (ulps_eq A a' b' e' u) with v by (rewrite <- H; f_equal; sym_eq Fth O T)
   end.
 
 Ltac sym_split :=
@@ -124,10 +130,9 @@ Ltac sym_tie Fth Hasym O T A :=
   intros;
   repeat match goal with x := _ |- _ => subst x end;
   sym_unfold;
-  sym_nodiv Fth;
   sym_asym Hasym O;
-  repeat (progress (repeat sym_cond O T A; cbv beta iota));
-  first [ reflexivity | sym_split; sym_eq O T ].
+  repeat (progress (repeat sym_cond Fth O T A; cbv beta iota));
+  first [ reflexivity | sym_split; sym_eq Fth O T ].
 
 (* the executable instance satisfies the order hypothesis *)
 Lemma LtAsym_Qc : LtAsym OpsQ.
